@@ -35,11 +35,12 @@ namespace acc
     }
     template <class R> constexpr bool has_buffer = requires(R &x) { x.buffer.size(); x.buffer[(size_t)0]; x.buffer.data(); };
     // number of elements of the backing array (without the member: the ring's own slot count)
-    template <class R> size_t bufsize(R &x)
+    template <class R> size_t bufsize(R &x, size_t fallback)
     {
         if constexpr (has_buffer<R>) return x.buffer.size();
-        else return x.size();
+        else return fallback;
     }
+    template <class R> size_t bufsize(R &x) { return bufsize(x, (size_t)x.size()); }
     template <class R> auto &slot(R &x, size_t i)
     {
         if constexpr (has_buffer<R>) return x.buffer[i];
